@@ -169,6 +169,69 @@ fn answer(text: &[char], chunks: &[usize]) -> (String, Vec<String>) {
             }
         }
     }
+    // error pretty-printing (`lrpar::diagnostics::SpannedDiagnosticFormatter`, behind `format_error`,
+    // `format_warning`, `format_conflicts` of the builders and nimbleparse) reports these positions:
+    // the `path:line:col` header, and the numbered source lines with the span underlined
+    {
+        use lrpar::diagnostics::SpannedDiagnosticFormatter;
+        let path = std::path::Path::new("src.y");
+        let fmt = SpannedDiagnosticFormatter::new(&s, path);
+        // (a) the header, for every boundary: line and column are the cache's
+        for &b1 in &bounds {
+            let b2 = *bounds.iter().find(|b| **b > b1).unwrap_or(&b1);
+            let got = guarded(std::panic::AssertUnwindSafe(|| fmt.file_location_msg("m", Some(Span::new(b1, b2)))));
+            let want = nlc.byte_to_line_num_and_col_num(&s, b1).map(|(l, c)| format!("m at src.y:{}:{}", l, c));
+            match (got, want) {
+                (Ok(g), Some(w)) if g == w => {}
+                (Ok(_), None) => {}
+                (g, w) => {
+                    fails.push(format!("pretty-printer header for the span starting at offset {} is {:?}, the position is {:?}", b1, g, w));
+                    break;
+                }
+            }
+        }
+        // (b) the underlined source lines, for texts whose characters are all one display cell wide and
+        // spans that neither start nor end on a line terminator: row `N| text` per covered line with its
+        // line number, then a row of blanks up to the span's first cell on that line and one mark per
+        // cell of the span on that line
+        let plain = text.iter().all(|c| *c == '\n' || *c == '\u{e9}' || (*c >= ' ' && *c <= '~'));
+        if plain && len > 0 {
+            let starts: Vec<usize> = std::iter::once(0).chain(s.char_indices().filter(|(_, c)| *c == '\n').map(|(i, _)| i + 1)).collect();
+            let line_of = |b: usize| starts.iter().rposition(|st| *st <= b).unwrap_or(0);
+            let line_end = |l: usize| if l + 1 < starts.len() { starts[l + 1] - 1 } else { len };
+            let nchars = |a: usize, b: usize| s[a..b].chars().count();
+            let mut checked = 0u32;
+            'spans: for (i, &b1) in bounds.iter().enumerate() {
+                if b1 >= len || s.as_bytes()[b1] == b'\n' {
+                    continue;
+                }
+                for step in [1usize, 3, 9, 17, 40] {
+                    let b2 = *bounds.get(i + step).unwrap_or(&len);
+                    if b2 <= b1 || s.as_bytes()[b2 - 1] == b'\n' {
+                        continue;
+                    }
+                    let (l1, l2) = (line_of(b1), line_of(b2 - 1));
+                    let mut want = String::new();
+                    for l in l1..=l2 {
+                        let (ls, le) = (starts[l], line_end(l));
+                        let (a, b) = (b1.max(ls), b2.min(le));
+                        let num = (l + 1).to_string();
+                        want.push_str(&format!("{}| {}\n", num, &s[ls..le]));
+                        want.push_str(&" ".repeat(num.len() + 2 + nchars(ls, a)));
+                        want.push_str(&"^".repeat(nchars(a, b.max(a)).max(1)));
+                        want.push_str(if l == l2 { " msg" } else { "\n" });
+                    }
+                    let got = guarded(std::panic::AssertUnwindSafe(|| fmt.underline_span_with_text(Span::new(b1, b2), "msg".to_string(), '^')));
+                    checked += 1;
+                    if got.as_ref().ok() != Some(&want) {
+                        fails.push(format!("pretty-printer marks the span {}..{} (lines {}..{}) as {:?}; its lines and columns are {:?}", b1, b2, l1 + 1, l2 + 1, got, want));
+                        break 'spans;
+                    }
+                }
+            }
+            let _ = checked;
+        }
+    }
     let mut sp = Vec::new();
     // the same cache behind the lexer API that error reporting uses
     let lexer: LRNonStreamingLexer<DefaultLexerTypes<u32>> =
@@ -316,6 +379,25 @@ pub fn run(a: &Args) {
         let n = text.len();
         let ch = random_chunks(&mut rng, n);
         emit(&mut out, &text, &ch, "many_lines");
+    }
+    // plain texts of 9 to 14 and of 98 to 104 lines: spans that cross the line whose number has one more
+    // digit (the gutter of the pretty-printed lines widens inside the span)
+    for case in 0..(if a.thorough { 30 } else { 6 }) {
+        let mut rng = Rng::for_case(a.seed, 19, 2_000_000 + case as u64);
+        let lines = if case % 3 == 2 { rng.range(98, 104) } else { rng.range(9, 14) };
+        let mut text: Vec<char> = Vec::new();
+        for _ in 0..lines {
+            for _ in 0..rng.range(1, 4) {
+                text.push(*rng.pick(&['a', 'b', ' ', '\u{e9}', 'x']));
+            }
+            text.push('\n');
+        }
+        if rng.chance(1, 2) {
+            text.push('z');
+        }
+        let n = text.len();
+        let ch = random_chunks(&mut rng, n);
+        emit(&mut out, &text, &ch, "plain_lines");
     }
     // random texts
     let (count, maxlen) = if a.thorough { (3000, 40) } else { (300, 18) };
